@@ -7,7 +7,7 @@ from suites.common import exc_result
 EXC = (ValueError, TypeError, AttributeError, KeyError, IndexError)
 
 VARIANTS = ["Server", "Client", "Server-optional", "AppStream"]
-ARCHES_OK = ["x86_64", "ppc64le", "i386", "aarch64", "noarch"]
+ARCHES_OK = ["x86_64", "ppc64le", "i386", "aarch64", "noarch", "armhfp", "arm64"]
 ARCHES_BAD = ["src", "nosrc", "bogus", ""]
 NEVRA_BIN = ["bash-0:5.1-2.el9.x86_64", "bash-debuginfo-0:5.1-2.el9.x86_64.rpm", "Packages/b/bash-doc-0:5.1-2.el9.noarch.rpm",
              "gtk+3-2-1:3.24.1~rc1-2.el9_1.x86_64", "python3-3-7:3.9-1.i386", "bash-10:5.1-2.el9.x86_64",
